@@ -169,6 +169,7 @@ def build_machine(T, dump, stack_cells, inbytes=None, tag=''):
     stack = m.array('stack', ('i', T), MAXDEPTH, arr=sarr)
     bc = m.array('bytecodes', ('i', 32), len(dump['bytecodes']), arr=_const_arr(dump['bytecodes'], 32), const=True)
     offs = m.array('bcoffsets', ('i', 64), len(dump['offsets']), arr=_const_arr(dump['offsets'], 64), const=True)
+    dbc = m.array('dictbc', ('i', 32), max(1, len(dump['dictionary'])), arr=_const_arr(dump['dictionary'] or [0], 32), const=True)
     which = m.array('which', ('i', 64), RECDEPTH, arr=z3.K(z3.BitVecSort(64), BVc(0)))
     where = m.array('where', ('i', 64), RECDEPTH, arr=z3.K(z3.BitVecSort(64), BVc(0)))
     dorec = m.array('do_rec', ('i', 64), RECDEPTH, arr=z3.K(z3.BitVecSort(64), BVc(0)))
@@ -191,6 +192,8 @@ def build_machine(T, dump, stack_cells, inbytes=None, tag=''):
         cells[off['bytecodes_offsets_'] + 8 * k] = c
     for k, c in enumerate(_vec(vars_, dump['nvars'])):
         cells[off['variables_'] + 8 * k] = c
+    for k, c in enumerate(_vec(dbc, len(dump['dictionary']))):          # what call(index) looks the word up in
+        cells[off['dictionary_bytecodes_'] + 8 * k] = c
     # recursion_target_depth_: std::stack<int64_t> over a deque holding the single entry 0 (what begin() pushes)
     d0 = off['recursion_target_depth_']
     dqc = [(Ptr('dqmap', BVc(0)), 8), i64(8),
